@@ -27,6 +27,7 @@ type labelSpec struct {
 	absent bool     // recipient does not implement RecipientWithLabels
 	labels []string // as returned (order matters only to the implementation)
 	nilLbl bool     // return nil instead of an empty slice
+	dup    bool     // the list repeats a label
 }
 
 var alphabet = []labelSpec{
@@ -39,9 +40,28 @@ var alphabet = []labelSpec{
 	{name: "[b,a]", labels: []string{"b", "a"}},
 	{name: "{a,c}", labels: []string{"a", "c"}},
 	{name: "{postquantum}", labels: []string{"postquantum"}},
+	// label LISTS that repeat a label: the set they declare is what counts
+	{name: "[a,a]", labels: []string{"a", "a"}, dup: true},
+	{name: "[a,b,b]", labels: []string{"a", "b", "b"}, dup: true},
+	{name: "[b,b]", labels: []string{"b", "b"}, dup: true},
 }
 
+// set is the canonical form of the SET of labels (duplicates removed).
 func (l labelSpec) set() string {
+	seen := map[string]bool{}
+	var s []string
+	for _, x := range l.labels {
+		if !seen[x] {
+			seen[x] = true
+			s = append(s, x)
+		}
+	}
+	sort.Strings(s)
+	return strings.Join(s, "\x00")
+}
+
+// multiset is the canonical form of the label LIST up to order.
+func (l labelSpec) multiset() string {
 	s := append([]string(nil), l.labels...)
 	sort.Strings(s)
 	return strings.Join(s, "\x00")
@@ -155,16 +175,29 @@ func runList(r *mon.Run, l []int, failPos int) {
 	r.Eval(1)
 	desc := describe(l, failPos)
 	r.Distinct(desc)
-	// model
+	// model: equal SETS succeed, different sets are refused. Lists that
+	// declare the same set but repeat labels differently are outside the
+	// stated quantifier: their outcome is recorded, not judged.
 	want := true
+	unconstrained := false
 	first := alphabet[l[0]].set()
+	firstMulti := alphabet[l[0]].multiset()
 	for _, a := range l {
 		if alphabet[a].set() != first {
 			want = false
+		} else if alphabet[a].multiset() != firstMulti {
+			unconstrained = true
 		}
 	}
 	if failPos >= 0 {
 		want = false
+	}
+	if want && unconstrained {
+		r.Count("same_set_different_multiplicity_not_judged", 1)
+		if err != nil && dst.Len() != 0 {
+			r.Violate("bytes-on-refusal:"+desc, fmt.Sprintf("Encrypt refused (%v) after writing %d bytes", err, dst.Len()), map[string]any{"labels": desc})
+		}
+		return
 	}
 	r.Tab("model", fmt.Sprintf("len%d:%v", len(l), want))
 	replay := map[string]any{"labels": desc}
